@@ -104,6 +104,8 @@ func bankMutatorCalls(p *Prog) []CallSite {
 
 // C07 — burn address is a sink.
 func checkC07(p *Prog, r *Report) {
+	checkNoDroppedErrors(p, r, "C07", "x/burn", func(fn *ssa.Function) bool { return InPkgs(fn, "x/burn") })
+	checkNoNilWrap(p, r, "C07", "x/burn", func(fn *ssa.Function) bool { return InPkgs(fn, "x/burn") })
 	r.Explain = "Decided statically: D1 burn.AppModule.EndBlock calls, on every path, the keeper function that reaches bank BurnCoins with the constant burn address; its error is neither returned nor passed to panic and neither function contains an explicit panic; D2 in that keeper function the Coins sent to the module and the Coins burned are the same datum, the sender is the address parsed from the parameter, recipient and burning module are the same constant (the burn module's name), the amount is a *spendable*-balance read of that same address (SpendableCoins; a total-balance read makes bank refuse the whole send when coins are locked), the early return happens only when that datum is empty, the burn is dominated by a successful send; D3 the burn module account has the Burner permission, the module is in the module manager and in the end-blocker order, its keeper is built from the bank keeper; D4 coin-moving bank methods are called only from x/burn/keeper (and the test-support package), the burn function only from EndBlock. Also: no unguarded narrowing (Int64/Uint64) or division by a possibly-zero amount on the burn path; an invariant registered by module code does not read the burn address's balance while crisis' end-blocker precedes burn's; the burn module account's address is in the blocked set handed to the keepers."
 	r.NotDec = []string{"bank accounting identity (supply = sum of balances)", "crisis invariants", "minting elsewhere in the block", "SpendableCoins/SendCoins internals"}
 	r.Trusted = []string{"cosmos-sdk v0.47.12 x/bank keeper", "module manager EndBlock dispatch"}
